@@ -509,7 +509,12 @@ namespace
     value pwd___(runtime& runtime)
     {
         auto path = std::filesystem::path(runtime.context_active().current_frame().diag_info_from_position().path.physical);
-        auto str = std::filesystem::absolute(path).string();
+        std::error_code ec;
+        auto str = std::filesystem::absolute(path, ec).string();
+        if (ec)
+        {
+            return ""s;
+        }
         std::replace(str.begin(), str.end(), '\\', '/');
         return str;
     }
@@ -517,7 +522,13 @@ namespace
     {
         auto pathinfo = runtime.context_active().current_frame().diag_info_from_position().path;
         auto path = std::filesystem::path(pathinfo.physical);
-        auto str = std::filesystem::absolute(path.parent_path()).string();
+        // Code that comes from no file has no directory: absolute("") is an error, not an exception to let escape
+        std::error_code ec;
+        auto str = std::filesystem::absolute(path.parent_path(), ec).string();
+        if (ec)
+        {
+            return ""s;
+        }
         std::replace(str.begin(), str.end(), '\\', '/');
         return str;
     }
